@@ -107,11 +107,20 @@ def code_data_from_json(value: object) -> CodeData:
         value["blocks"] = tuple(
             tuple(instruction_from_json(i) for i in block) for block in value["blocks"]
         )
+    for key in ("filename", "name", "freevars"):
+        if key in value:
+            value[key] = string_from_json(value[key])
     if "type" in value:
         # Copy so that we do not modify the nested dict of the input
         tp = copy(value["type"])
         if "args" in tp:
-            tp["args"] = Args(**lists_values_to_tuples(tp["args"]))
+            tp["args"] = Args(
+                **lists_values_to_tuples(
+                    {k: string_from_json(v) for k, v in tp["args"].items()}
+                )
+            )
+        if "docstring" in tp:
+            tp["docstring"] = string_from_json(tp["docstring"])
         value["type"] = Function(**tp)
     if "flags" in value:
         value["flags"] = frozenset(value["flags"])
@@ -131,6 +140,17 @@ def lists_values_to_tuples(d):
     Converts all list values to tuples
     """
     return {k: tuple(v) if isinstance(v, list) else v for k, v in d.items()}
+
+
+def string_from_json(value: object) -> object:
+    """
+    Parse a string which was possibly encoded because it could not be encoded as unicode.
+    """
+    if isinstance(value, dict) and "string" in value:
+        return literal_eval(value["string"])
+    if isinstance(value, list):
+        return list(map(string_from_json, value))
+    return value
 
 
 def instruction_from_json(value: object) -> Instruction:
@@ -155,6 +175,10 @@ def arg_from_json(value: object) -> Arg:
         raise ValueError(f"Expected dict, got {type(value)}")
     if "target" in value:
         return Jump(**value)
+    for key in ("name", "varname", "freevar", "cellvar"):
+        if key in value:
+            value = copy(value)
+            value[key] = string_from_json(value[key])
     if "name" in value:
         return Name(**value)
     if "varname" in value:
